@@ -79,6 +79,97 @@ def run(P, tier="quick"):
                                  "through silent callees)" % ", ".join(sorted(failed)), node.line if node else 0, trace))
         elif not f.static and not name.startswith("_") and (file.startswith("vnacal") or file.startswith("vnadata")):
             R16.ok("R16|%s|%s|sys" % (file, name), {"C11"})
+    # R16c: inside a loop, the failure of a callee that reports must end the loop: otherwise one failing
+    # public call can emit one error line per iteration
+    from .r25_loops import natural_loops
+    from ..failflow import failure_value_kind
+    from ..util import is_null
+    nloopcalls = 0
+    for f in P.lib_functions():
+        if f.cfg is None:
+            continue
+        loops = None
+        for c in f.calls():
+            g = P.resolve_call(c, f)
+            gs = S.get(g.key()) if g is not None else None
+            if gs is None or not (1 in gs.fail_reports or 2 in gs.fail_reports):
+                continue
+            pos = f.cfg.pos_of(c)
+            if pos is None:
+                continue
+            if failure_value_kind(g) != "minus1":
+                continue        # value-returning accessors are used with indices known to be in range
+            pv = c.parent
+            while pv is not None and pv.k in ("ImplicitCastExpr", "ParenExpr"):
+                pv = pv.parent
+            if pv is not None and pv.k == "CStyleCastExpr" and pv.type == "void":
+                continue        # explicitly ignored
+            if loops is None:
+                loops = natural_loops(f.cfg)
+            inloops = [(h, body) for h, body in loops.items() if pos[0] in body]
+            if not inloops:
+                continue
+            nloopcalls += 1
+            body = set.union(*[b for _, b in inloops])
+            # find the branch that tests the call (directly or through the variable it is assigned to)
+            tested_exit = False
+            tested = False
+            var = None
+            p = c.parent
+            while p is not None and p.k in ("ImplicitCastExpr", "ParenExpr", "CStyleCastExpr"):
+                p = p.parent
+            if p is not None and p.k in ("BinaryOperator", "CompoundAssignOperator") and p.op in ("=", "|=", "+=", "&=") and \
+                    p.kids[0].strip().k == "DeclRefExpr":
+                var = p.kids[0].strip().refdecl
+                accumulate = p.op != "="
+            else:
+                accumulate = False
+            gk = failure_value_kind(g)
+            for b in f.cfg.blocks.values():
+                if b.cond is None or len(b.succs) != 2 or b.id not in body:
+                    continue
+                cc = b.cond.strip()
+                neg = False
+                while cc.k == "UnaryOperator" and cc.op == "!":
+                    neg = not neg
+                    cc = cc.kids[0].strip()
+                subj = cc
+                failv_true = None
+                if cc.k == "BinaryOperator" and cc.op in ("==", "!="):
+                    subj = cc.kids[0].strip()
+                    rv = cc.kids[1].strip()
+                    k = rv.cv if rv.cv is not None else (0 if is_null(rv) else None)
+                    isfail = (gk in ("minus1", "huge") and k == -1) or (gk == "null" and k == 0)
+                    if not isfail:
+                        continue
+                    failv_true = (cc.op == "==")
+                elif gk == "null":
+                    failv_true = False       # if (p) ... : true edge is success
+                else:
+                    continue
+                if neg:
+                    failv_true = not failv_true
+                if subj.k == "BinaryOperator" and subj.op == "=":
+                    subj = subj.kids[1].strip()
+                hit = subj is c or (subj.k == "DeclRefExpr" and var is not None and subj.refdecl == var and not accumulate and
+                                    f.cfg.node_dominates(c, b.cond))
+                if not hit:
+                    continue
+                tested = True
+                fail_succ = b.succs[0] if failv_true else b.succs[1]
+                # does the failure edge leave every enclosing loop (without coming back)?
+                if fail_succ is not None and not (f.cfg.reachable_from(fail_succ) | {fail_succ}) & {h for h, _ in inloops}:
+                    tested_exit = True
+            idx = [x for x in f.calls(c.callee)].index(c)
+            key = "R16|%s|%s|loop-call:%s#%d" % (f.file, f.name, c.callee, idx)
+            if tested_exit:
+                R16.ok(key, _props(f.file))
+            else:
+                R16.violated(Finding("R16", _props(f.file), f.file, f.name, "repeated-report:%s#%d" % (c.callee, idx),
+                                     "%s() reports its own failures and is called in a loop, but its failure %s: one failing call "
+                                     "can produce several error reports" %
+                                     (c.callee, "does not leave the loop" if tested else "is not tested before the next iteration"), c.line))
+    R16.counts["reporting_calls_in_loops"] = nloopcalls
     R15.counts["return_paths_classified"] = nret
     R15.check_floor()
     R16.check_floor()
